@@ -13,9 +13,18 @@ CLAIMED = {
  'C01': ("SSA must-pass-through (cut) of watermark/bound guards before every APPROVED origin; conversion-guard dominance; record-before-approve cut; key/state provenance; dedupe-loop idiom; 2PL structure",
          "Decides, on every path of the current source, the structural obligations O1-O9, O13 of DESIGN.md §5 C01 (guards t>T, s>=S or 'none' before every APPROVED origin; uint64->int64 narrowing bounded; APPROVED leaves only past the nil-error edge of a committing store; state fetched/stored under the request's own key; duplicate keys refused) plus the C03 commit and C04 locking groups. Each is a necessary condition of the property; together with the composition argument they imply it. Not a proof: the composition step is prose.",
          "Not decided: badger returns the last committed value; BLS. ", "§5 C01"),
+ 'C02': ("SSA must-pass-through (cut) of the slot watermark/bound guards before every APPROVED origin; conversion-guard dominance; record-before-approve cut; key/state provenance; writer discipline of the watermark object",
+         "Decides the structural obligations of DESIGN.md §5 C02 on every path: APPROVED for a proposal is cut by [stored slot < 0] or [slot > stored slot]; the slot is bounded by MaxInt64 before narrowing; the new slot is committed (nil-error edge of a committing store) before APPROVED leaves; the record is fetched and stored under the request's own key with the proposal action; the watermark object is written only after the comparison; only APPROVED requests are signed. Strictly increasing signed slots follow by the composition argument (prose).",
+         "Not decided: badger returns the last committed value; BLS. ", "§5 C02"),
+ 'C03': ("effective-option dataflow at badger.Open (SyncWrites/InMemory, defaults read from the dependency's source), nil-error-implies-commit cuts in the store, who-may-call tables over badger mutators, approve->store->sign chain cuts, joined-fork idiom check of util.Scatter",
+         "Decides, path by path, the chain 'signature => APPROVED => store returned nil => badger commit returned nil on a database opened with SyncWrites effective', that nothing else writes or deletes records, and that every goroutine boundary between the store and the signer's use of the verdict is a joined fork. A per-path argument covers every crash point. Durability itself is badger's contract (trusted).",
+         "Not decided: badger's and the file system's durability; torn writes inside badger; that the same storage-path is configured after restart. ", "§5 C03"),
  'C04': ("lock-region analysis on SSA (full-range lock loop idiom, deferred release, key provenance), action-guard cuts, module call graph with lexical closure edges (only-via RunRules), who-may-call tables",
          "Decides the conservative two-phase-locking structure: every stateful rule is reachable only through RunRules, RunRules locks the key of every request (same bytes as the database key) before dispatch and releases by defer, the lock condition covers every action under which a stateful rule is dispatched, the locker hands out one mutex per key, and the store is touched only below the stateful rules or import/export. Serial equivalence then follows by the textbook 2PL argument (prose).",
          "Not decided: the linearizability statement over concrete histories; fairness.", "§5 C04"),
+ 'C06': ("value-set cuts over the closed verdict enum at every signing site, data-dependence based nil-error cuts before every success site, pairing rules for signature/SUCCEEDED in services and handlers, summaries of the pre-check helpers, error-mapping cuts in the rules' fetch helpers and the store",
+         "Decides that a signature is produced only where the rules verdict of the request's own position is APPROVED, that SUCCEEDED+signature is reachable only past the nil-error edge of every call the signature depends on, that signature and SUCCEEDED are written together (service and handler, position by position), that rules run only after lookup, permission check and unlock succeeded, and that fetch/decode/store failures cannot turn into 'nothing signed yet' or APPROVED.",
+         "Not decided: behaviour when a dependency panics instead of returning an error; third-party signers. ", "§5 C06"),
  'C15': ("typestate dataflow over the gate (PreLock/Lock*/PostLock), mutex pairing dataflow inside the locker, reachability in the module call graph (no re-entry below the dispatch)",
          "Decides that key locks are only requested inside the locker-wide gate, the gate is released on every path, nothing inside the gate or below the dispatch can re-enter the locker, the locker's own creation mutex is paired on every path and released before waiting for a key, and every acquired key is released by defer. These exclude every wait-for cycle (prose argument in DESIGN.md §5 C15).",
          "Not decided: termination of badger operations and third-party signers while locks are held.", "§5 C15"),
